@@ -86,6 +86,78 @@ CLAIMED = {
     },
 }
 
+READ_NOTE = ('Trusted: Lean kernel (axioms propext, Classical.choice, Quot.sound only), translate.py (tables, dialect signatures, '
+             'leaf functions regenerated each run), the correspondence harness and its generators; modelled external: '
+             're.finditer for the one node pattern, inspect.Signature.bind for the two signatures, float() on the decimal grammar. ')
+
+CLAIMED.update({
+    'C04': {
+        'text': ('Lean 4, string level: for every string of the linear grammar {[#n0] b [#n1] b …} (any length, alphanumeric '
+                 'names, every bond symbol) reading returns exactly the denoted graph (numbering, names, default annotation '
+                 'values, orders) — tokeniser lemma + per-node decoding lemma + state-machine invariant. Branches, ring bonds, '
+                 'annotations inside: per-node lemmas, ring parity law, documented examples by kernel evaluation; their '
+                 'unbounded statement is validated by exhaustive (<=4 nodes) and random correspondence of the faithful model '
+                 'with the code plus an independent denotation oracle (partial).'),
+        'note': READ_NOTE,
+        'design': '§7 C04',
+    },
+    'C05': {
+        'text': ('Lean 4, string level: for chains of any length with node multipliers |digits at any position (first node '
+                 'included, followed by a bond symbol or not) reading the shorthand equals reading the written-out string — '
+                 'identical numbering, names, orders. Branch multipliers: open findings R4, R6a-c pinned by kernel-evaluated '
+                 'witness theorems on the faithful model; outside those classes validated by correspondence + metamorphic '
+                 'oracle (partial).'),
+        'note': READ_NOTE + 'Known findings R4, R6a, R6b, R6c are listed in known-findings.txt.',
+        'design': '§7 C05',
+    },
+    'C07': {
+        'text': ('Lean 4: writer and reader symbol tables are mutually inverse on orders 0-4, single bonds are silent, ring-'
+                 'marker allocation never returns an open marker, one-node graphs; round trips of branch / ring graphs by '
+                 'kernel evaluation of both models. General round trip (all connected graphs x spanning trees) validated by '
+                 'running both models and both implementations on random graphs and, thorough, on all connected graphs <= 6 '
+                 'nodes (partial).'),
+        'note': READ_NOTE + 'nx.dfs_successors and CPython set order of ring edges are parameters (contract D0 checked per case).',
+        'design': '§7 C07',
+    },
+    'C08': {
+        'text': ('Lean 4: format_bonding (translated from the source each run) followed by the fragment reader returns every '
+                 'descriptor list unchanged — any length, four kinds, any label, orders 0-4 — on the atom it was written '
+                 'after, clean text without the descriptors\' symbols; one-node fragments are written as text + descriptors. '
+                 'Graph part of coarse fragments = C07; atomistic atom texts are pysmiles\' (P0): validated by correspondence '
+                 '+ oracle on generated fragment sets and complete strings (partial).'),
+        'note': READ_NOTE + 'pysmiles format_atom/read_smiles are external.',
+        'design': '§7 C08',
+    },
+    'C13': {
+        'text': ('Lean 4 on the character state machine: any number of descriptors (all kinds, labels, orders 0-4 through the '
+                 'symbol before the bracket) written after an atom are reported on that atom in order with their order, the '
+                 'clean text keeps none of their symbols, and the text that follows is processed from exactly that state; '
+                 'test-suite strings by kernel evaluation. Position-generic statement (after any atom, ring digits, branch '
+                 'closings, annotations) validated by exact correspondence on generated and mutated fragment texts + the '
+                 'builder\'s expected 4-tuple (partial).'),
+        'note': READ_NOTE,
+        'design': '§7 C13',
+    },
+    'C14': {
+        'text': ('Lean 4 for all value texts: positional = keyword forms for both generated signatures, keyword order '
+                 'irrelevant (general permutation theorem for Signature.bind), documented defaults, numeric keys are numbers / '
+                 'other keys verbatim, numeric spellings, annotations survive instantiation and renumbering. Tied to the code '
+                 'by exact correspondence on generated annotation strings (values as exact rationals) and metamorphic + '
+                 'propagation oracles.'),
+        'note': READ_NOTE + 'Coarse-fragment annotations pass through the atomistic dialect (finding S3, not claimed).',
+        'design': '§7 C14',
+    },
+    'C20': {
+        'text': ('Lean 4: an entry with two "=" anywhere makes the annotation a SyntaxError; surplus positional / duplicated '
+                 'argument -> SyntaxError; non-numeric reserved value -> TypeError; any exception of the loop body is what '
+                 'read_cgsmiles raises; a ring marker open at the end -> SyntaxError, with the parity law of the ring '
+                 'bookkeeping; duplicate ring edge -> SyntaxError; non-virtual node without fragment -> SyntaxError at any '
+                 'position. Tied to the code by fault injection at every position with error-class correspondence.'),
+        'note': READ_NOTE,
+        'design': '§7 C20',
+    },
+})
+
 PENDING_REASON = ('not claimed yet: model/theorems for this property are still being built in this round '
                   '(DESIGN §11 staging); no check is registered until it decides the property soundly')
 
